@@ -609,8 +609,15 @@ fn execute_one(ctx: &Ctx, trace: &Trace, opts: &ExecOpts) -> Outcome {
             return o;
         }
         // ---------------- S3/S4: render ----------------
+        let surplus = crate::trace::surplus_of(&trace.faults);
         match guard(|| {
-            let bm = MatrixMap::new_with_codewords(&s2f, s.size).bitmap();
+            let bm = if surplus.is_empty() {
+                MatrixMap::new_with_codewords(&s2f, s.size).bitmap()
+            } else {
+                let mut longer = s2f.clone();
+                longer.extend_from_slice(&surplus);
+                MatrixMap::new_with_codewords(&longer, s.size).bitmap()
+            };
             (bm.bits().to_vec(), bm.width(), bm.height())
         }) {
             Ok((bits, w, h)) => {
@@ -759,6 +766,47 @@ fn execute_one(ctx: &Ctx, trace: &Trace, opts: &ExecOpts) -> Outcome {
     let has_pixels = sinfo.is_some() || trace.faults.iter().any(|f| f.op.stage() == Stage::S4);
     let mut staged: Option<Result<Vec<u8>, DecodingError>> = None;
     let mut staged_panicked = false;
+    if has_pixels && prop == "C05" && px.len() <= 30_000 {
+        // "any pixel vector": the conversion is generic over the pixel type. The same array as light / dark values of
+        // a many-valued type, once as is and once with further values sprinkled over it (an "undecided" module).
+        // with catalogue dimensions the further values go on data modules only (on a fixed module they merely get
+        // the array rejected)
+        let tpl: Option<Vec<Option<bool>>> = if width > 0 && px.len() % width == 0 {
+            catalogue::find_by_dims(px.len() / width, width).map(catalogue::fixed_template)
+        } else {
+            None
+        };
+        for sprinkle in [false, true] {
+            let arr: Vec<catalogue::Tag> = px
+                .iter()
+                .enumerate()
+                .map(|(i, b)| {
+                    let data_module = tpl.as_ref().map_or(true, |t| t[i].is_none());
+                    if sprinkle && data_module && (i.wrapping_mul(2654435761).wrapping_add(px.len())) % 7 == 0 {
+                        catalogue::Tag(1000 + i as u32)
+                    } else if *b {
+                        <catalogue::Tag as datamatrix::placement::Bit>::HIGH
+                    } else {
+                        <catalogue::Tag as datamatrix::placement::Bit>::LOW
+                    }
+                })
+                .collect();
+            let r = guard(|| {
+                if let Ok((m, _)) = MatrixMap::<catalogue::Tag>::try_from_bits(&arr, width) {
+                    let bm = m.bitmap();
+                    let _ = bm.bits().len();
+                }
+            });
+            if let Err(p) = r {
+                o.violations.push(Violation {
+                    prop: "C05",
+                    class: format!("panic:try_from_bits<generic bit type>@{}", p.loc),
+                    detail: p.msg,
+                });
+                break;
+            }
+        }
+    }
     if has_pixels {
         let parsed = guard(|| MatrixMap::<bool>::try_from_bits(&px, width));
         match parsed {
